@@ -1,7 +1,7 @@
 (* Lifecycle_proofs: from every reachable state of the Control state machine, stopping releases everything. *)
 From Coq Require Import List NArith Bool Arith Lia.
 Import ListNotations.
-From NV Require Import model.Lifecycle.
+From NV Require Import gen.Tab_Lifecycle model.Lifecycle.
 
 (* ---- resources -------------------------------------------------------------------------------------------------- *)
 Lemma res_eqb_eq a b : res_eqb a b = true <-> a = b.
@@ -248,3 +248,42 @@ Example ex_full_stop : released (run (ready ex_cfg) [OStart true; ORebind; OStop
                        released (run (ready ex_cfg) [OStart true; ORebind]) = false /\
                        length (l_acts (run (ready ex_cfg) [OStart true])) = 18%nat.
 Proof. vm_compute. repeat split; reflexivity. Qed.
+
+(* ---- Stop's tunnel-closing phase does not block ----------------------------------------------------------------- *)
+(* measured on the real Interface.send: a CloseTunnel never touches the lighthouse query channel, whatever the rebind
+   counters say, on a plain node and on a lighthouse (every other message type does, on a plain node whose tunnel has
+   not sent since the last rebind) *)
+Lemma close_tunnel_never_queries :
+  forallb (fun r => let '(t, _, _, n) := r in negb (N.eqb t t_close_tunnel) || N.eqb n 0) send_queries = true /\
+  lookup_queries send_queries t_close_tunnel true false = Some 0%N /\
+  lookup_queries send_queries t_close_tunnel true true = Some 0%N /\
+  lookup_queries send_queries t_close_tunnel false false = Some 0%N /\
+  lookup_queries send_queries t_close_tunnel false true = Some 0%N.
+Proof. vm_compute. repeat split; reflexivity. Qed.
+
+(* the other rows, for contrast: the exemption of CloseTunnel is what keeps Stop from blocking *)
+Lemma other_sends_do_query :
+  forallb (fun r => let '(t, m, l, n) := r in N.eqb t t_close_tunnel || negb m || l || N.eqb n 1) send_queries = true.
+Proof. vm_compute. reflexivity. Qed.
+
+Lemma stop_phase_never_blocks c ops :
+  let s := run (ready c) ops in
+  forall q, lookup_queries send_queries t_close_tunnel true false = Some q -> may_block s (stop_sends q) = false.
+Proof.
+  intros s q H. destruct close_tunnel_never_queries as (_ & E & _). rewrite E in H. inversion H; subst. reflexivity.
+Qed.
+
+(* and the exemption is needed: while Stop is between cancelling the context and closing the interface, a send into
+   the query channel has no receiver left *)
+Lemma stopping_query_send_would_block c ops :
+  let s := run (ready c) ops in l_state s = SStopping -> may_block s (stop_sends 1) = true.
+Proof.
+  intros s St. pose proof (form_reachable c ops) as F. fold s in F.
+  destruct F as [n f|n f|n f|n f|n f]; simpl in St; try discriminate.
+  unfold may_block, stop_sends, receivers. cbn [N.eqb existsb Pos.eqb orb]. rewrite orb_false_r. apply negb_true_iff.
+  rewrite orb_false_r. unfold live_receiver. cbn [l_acts l_closed].
+  apply not_true_is_false. intro E. apply existsb_exists in E as [r [Hr Er]]. apply andb_prop in Er as [E1 E2].
+  apply N.eqb_eq in E1. apply negb_true_iff in E2.
+  apply in_app_or in Hr as [Hr|Hr]; apply in_spawn in Hr as (Ht & _ & _); simpl in Ht;
+    repeat (destruct Ht as [<-|Ht]; [simpl in E1; try discriminate; simpl in E2; discriminate|]); destruct Ht.
+Qed.
